@@ -66,7 +66,8 @@ def gen_curve(rng, dim):
 def gen_geom3(rng):
     pts = [[rng.uniform(-3, 3) for _ in range(3)] for _ in range(rng.choice([1, 4, 10]))]
     return {"k": "c03.geom3", "pts": pts, "q": [rng.uniform(-4, 4) for _ in range(3)], "n": [rng.uniform(-1, 1), rng.uniform(-1, 1), rng.uniform(0.1, 1)],
-            "iso": rnd_iso3(rng), "iso2": rnd_iso3(rng), "box": [rng.uniform(0.5, 3), rng.uniform(0.5, 3), rng.uniform(0.5, 3)]}
+            "iso": rnd_iso3(rng), "iso2": rnd_iso3(rng), "box": [rng.uniform(0.5, 3), rng.uniform(0.5, 3), rng.uniform(0.5, 3)],
+            "dir2": None if rng.random() < 0.3 else [rng.uniform(-1, 1), rng.choice([-1, 1]) * rng.uniform(0.05, 1)]}
 
 
 def corpus():
@@ -124,12 +125,12 @@ def coq_check(c, r):
         da, db = (c["q"][0], c["q"][1]), (c["pts"][0][0], c["pts"][0][1])
         if math.dist(da, db) == 0:
             return None
-        return "check_geom3 %s %s %s %s %s %s %s %s %s %s %s %s %s %s %s %s %s %s %s %s %s %s" % (
+        return "check_geom3 %s %s %s %s %s %s %s %s %s %s %s %s %s %s %s %s %s %s %s %s %s %s %s %s" % (
             coq(rig3(r["iso"])), coq(rig3(r["iso2"])), coq([T(p) for p in c["pts"]]), coq(T(c["q"])), coq(T(pl["n"])), coq(pl["d"]),
             coq(T(pl["tn"])), coq(pl["td"]), coq(T(r["tq"])), coq(T(sp["tp"])), coq(T(sp["tn"])),
             coq([T(p) for p in cl["pts"]]), coq([T(p) for p in cl["seq"]]), coq([T(p) for p in cl["comp"]]),
             coq([T(p) for p in cl["normals0"]]), coq([T(p) for p in cl["normals"]]),
-            coq(T(da)), coq(T(db)), coq(T(di["a3"])), coq(T(di["b3"])), coq(di["v2"]), coq(di["v3"]))
+            coq(T(da)), coq(T(db)), coq(T(di["dir2"])), coq(T(di["a3"])), coq(T(di["b3"])), coq(T(di["dir3"])), coq(di["v2"]), coq(di["v3"]))
     return None
 
 
@@ -259,5 +260,7 @@ def oracle(c, r):
         d1 = math.dist(r["tq"], me["p1"])
         if abs(d0 - d1) > tol:
             yield ("mesh-distance-invariant", what + ": distance to the box %r became %r" % (d0, d1))
+        if not near(rot(list(di["dir2"]) + [0.0]), di["dir3"], 1e-12):
+            yield ("distance-2d-3d", what + ": measuring direction %r became %r (directions only rotate)" % (di["dir2"], di["dir3"]))
         if abs(di["v2"] - di["v3"]) > tol or abs(di["v2"] - di["v2b"]) > tol:
             yield ("distance-2d-3d", what + ": 2D distance %r, lifted %r, dropped back %r" % (di["v2"], di["v3"], di["v2b"]))
